@@ -131,6 +131,19 @@ func (p *Parser) parseIdentifier() Expression {
 	return &Identifier{Token: p.curToken, Value: p.curToken.Literal}
 }
 
+// parseNameOperand parses the current token as the attribute name or placeholder that a
+// BETWEEN bound, a list index or a map member has to be; any other token is a syntax error
+func (p *Parser) parseNameOperand() Expression {
+	if p.curToken.Type != IDENT {
+		msg := fmt.Sprintf("expected an attribute name or a placeholder, got %s instead", p.curToken.Type)
+		p.errors = append(p.errors, msg)
+
+		return nil
+	}
+
+	return p.parseIdentifier()
+}
+
 // Errors returns the errors found while parsing
 func (p *Parser) Errors() []string {
 	return p.errors
@@ -263,7 +276,7 @@ func (p *Parser) parseIndexExpression(left Expression) Expression {
 
 	p.nextToken()
 
-	expression.Index = p.parseIdentifier()
+	expression.Index = p.parseNameOperand()
 
 	if expression.Token.Type == DOT {
 		expression.Type = ObjectTypeMap
@@ -285,26 +298,34 @@ func (p *Parser) parseBetweenExpression(left Expression) Expression {
 	}
 
 	p.nextToken()
-	expression.Range[0] = p.parseIdentifier()
+	expression.Range[0] = p.parseNameOperand()
 
 	if !p.expectPeek(AND) {
 		return nil
 	}
 
 	p.nextToken()
-	expression.Range[1] = p.parseIdentifier()
+	expression.Range[1] = p.parseNameOperand()
 
 	return expression
 }
 
 func (p *Parser) parseInExpression(left Expression) Expression {
-	p.nextToken()
+	if !p.expectPeek(LPAREN) {
+		return nil
+	}
 
-	return &InExpression{
+	expression := &InExpression{
 		Token: p.curToken,
 		Left:  left,
 		Range: p.parseCallArguments(),
 	}
+
+	if expression.Range != nil && len(expression.Range) == 0 {
+		p.errors = append(p.errors, "the IN comparator needs at least one operand")
+	}
+
+	return expression
 }
 
 func (p *Parser) parseCallArguments() []Expression {
@@ -423,6 +444,11 @@ func (p *Parser) parseActions(token Token) []Expression {
 
 		otherUpdate := p.parseUpdateActionExpression()
 		if updateExpression, ok := otherUpdate.(*UpdateExpression); ok {
+			if len(updateExpression.Expressions) == 0 {
+				msg := fmt.Sprintf("the %s section must have at least one action", updateExpression.Token.Type)
+				p.errors = append(p.errors, msg)
+			}
+
 			actions = append(actions, updateExpression.Expressions...)
 		}
 	}
